@@ -6,13 +6,18 @@ values (Spec/Footprint.lean) and compared with the region extents published in t
 (sizes of the custom operator's flash / scratch / scratch_fast tensors, read with a plain flatbuffer walker)."""
 import common
 import stream_checks
+import ta_lib
 from common import Check, main_wrapper
 
 
 def main():
     ck = Check("C02", "translation_validation")
     ck.lean_stage(["VelaVerif.Props.C02"])
-    outs, lines, owners, answers = stream_checks.run(ck, "C02", 288, 6000, None)
+    # address-generation link, function level: real Tensor methods against Model/TensorAddr.lean, Lean Spec on the real outputs
+    fn_evals, fn_tensors, fn_bad, fn_spec = ta_lib.function_level(ck, 1500 if ck.thorough else 220)
+    outs, lines, owners, answers = stream_checks.run(ck, "C02", 288, 6000, None, want={"stream": True, "extra": ta_lib.pipeline_extra})
+    # ... pipeline level: every NpuFeatureMap against the model, decoded footprints against the tensor's own allocation
+    n_fm, n_alloc_streams = ta_lib.pipeline_level(ck, outs)
     programs = 0
     nontrivial = set()
     accesses = 0
